@@ -85,7 +85,7 @@ Definition model_ok (runf : family -> str -> option value -> list input -> obs) 
 
 (* (S1), (S2) for every option; (S4) only for a parser with a single option (a sibling may be the one at fault) *)
 Definition spec_ok (c : case) : bool :=
-  fam_wf (k_fam c)
+  fam_wf_ext (k_fam c)
   && match k_sibs c with
      | [] => obs_ok (k_fam c) (k_base c) (k_dflt c) (k_steps c) (k_obs c)
      | _ => forallb (fun p => match s_obs p with
@@ -112,7 +112,7 @@ Definition cont_model_ok (rs : raw -> raw) (c : case) (srcs : list csrc) (o : op
   end.
 
 Definition cont_spec_ok (c : case) (o : option (list (str * obs))) : bool :=
-  fam_wf (k_fam c)
+  fam_wf_ext (k_fam c)
   && match o with
      | None => true
      | Some os =>
